@@ -97,6 +97,12 @@ class TestSolver : public SQuIDS {
       for (unsigned is = 0; is < nscalars; is++) state[ei].scalar[is] = 1 + ei + is;
     }
   }
+  void scale_state(double f) {
+    for (unsigned ei = 0; ei < nx; ei++) {
+      for (unsigned i = 0; i < nrhos; i++) for (unsigned k = 0; k < nsun * nsun; k++) state[ei].rho[i][k] *= f;
+      for (unsigned is = 0; is < nscalars; is++) state[ei].scalar[is] *= f;
+    }
+  }
   const double* estate_ptr() const { return (nx && nrhos) ? &(estate[0].rho[0][0]) : nullptr; }
   const double* state_ptr() const { return (nx && nrhos) ? &(state[0].rho[0][0]) : nullptr; }
   uint64_t state_digest() const { return (nx && nrhos) ? digest(&(state[0].rho[0][0]), (size_t)nx * (nsun * nsun * nrhos + nscalars)) : 0; }
@@ -189,6 +195,8 @@ int main() {
       } else if (cmd == "ANY") { int b; in >> o >> b; S(o - 1).Set_AnyNumerics(b); printf("{\"e\":\"SetAny\",\"o\":%d,\"b\":%s}\n", o, b ? "true" : "false");
       } else if (cmd == "STEPPER") { std::string n; int ad; unsigned ns; in >> o >> n >> ad >> ns; S(o - 1).Set_GSL_step(stepper(n)); S(o - 1).Set_AdaptiveStep(ad); S(o - 1).Set_NumSteps(ns);
       } else if (cmd == "TOL") { double r, a; in >> o >> r >> a; S(o - 1).Set_rel_error(r); S(o - 1).Set_abs_error(a);
+      } else if (cmd == "HMIN") { double x; in >> o >> x; S(o - 1).Set_h_min(x);
+      } else if (cmd == "SCALE") { int e2; in >> o >> e2; S(o - 1).scale_state(std::ldexp(1.0, e2));
       } else if (cmd == "QUIET") { int q; in >> q; quiet = q;
       } else if (cmd == "EVOLVE") {
         long dt4; in >> o >> dt4; TestSolver& s = S(o - 1);
